@@ -3,8 +3,8 @@
    OpenObjectScope / the destructors of MpScopeModel.v issue, one after the other, each decision taken from
    the answers seen so far.  Fragment of the history language (frag_reqs): RGet (any key kind, any target), RObj,
    RArr with AGet / AObj / AArr / AEnd, RVisit, REach with VSkip / VGet / VObj / VArr (nested to any depth) —
-   repeated, absent, out-of-order keys and arrays left partly read included; no byte arrays, no guarded or
-   throwing requests (ATry / AThrow / VThrow).
+   repeated, absent, out-of-order keys and arrays left partly read included; no byte arrays, no guarded requests
+   (ATry); AThrow / VThrow (the caller's own code throws) are admitted, the client stops there.
    Proved here: on the string reader the client returns what run_obj_root returns (whenever that is
    Done .. false), and all its seeks stay inside the data. *)
 From BS Require Import Base MpSpec MpModel MpLemmas MpReader MpTyped MpScopeSpec MpScopeModel MpScopeLemmas MpScopeTyped MpScopeProofs MpScopeRefine.
@@ -229,7 +229,12 @@ with c_vacts (n : nat) (acts : vacts) (cst : cscope) (p : N) (k : list tok -> cs
 Definition scope_client (n : nat) (h : reqs) : cl :=
   c_obj_child n (c_reqs n h) (fun toks p4 => SM.CRet (Some (toks, p4, false))).
 
-(* the fragment *)
+(* MsgPackReadRootScope::OpenArrayScope, the history, the scope's destruction *)
+Definition scope_client_arr (n : nat) (h : areqs) : cl :=
+  c_arr_child n (c_areqs n h) (fun toks p4 => SM.CRet (Some (toks, p4, false))).
+
+(* the fragment (AThrow / VThrow = the caller's own code throws: admitted, the client stops there with None; an
+   error-free history never executes one) *)
 Fixpoint frag_req (r : req) : bool :=
   match r with
   | RGet _ _ => true | RObj _ body => frag_reqs body | RArr _ body => frag_areqs body | RVisit => true | REach acts => frag_vacts acts
@@ -238,11 +243,11 @@ Fixpoint frag_req (r : req) : bool :=
 with frag_reqs (l : reqs) : bool :=
   match l with RNil => true | RCons r l' => frag_req r && frag_reqs l' end
 with frag_areq (a : areq) : bool :=
-  match a with AGet _ => true | AObj body => frag_reqs body | AArr body => frag_areqs body | AEnd => true | _ => false end
+  match a with AGet _ => true | AObj body => frag_reqs body | AArr body => frag_areqs body | AEnd => true | AThrow _ => true | _ => false end
 with frag_areqs (l : areqs) : bool :=
   match l with ANil => true | ACons a l' => frag_areq a && frag_areqs l' end
 with frag_vact (a : vact) : bool :=
-  match a with VSkip => true | VGet _ => true | VObj body => frag_reqs body | VArr body => frag_areqs body | _ => false end
+  match a with VSkip => true | VThrow _ => true | VGet _ => true | VObj body => frag_reqs body | VArr body => frag_areqs body | _ => false end
 with frag_vacts (l : vacts) : bool :=
   match l with VANil => true | VACons a l' => frag_vact a && frag_vacts l' end.
 
@@ -812,6 +817,8 @@ Section ClientProofs.
         rewrite E2. split; [reflexivity | exact S2].
       - (* AEnd *)
         intros _ st d toks st' d' k Hd H. cbn [run_areq] in H. injection H as <- <- <-. cbn [c_areq]. auto.
+      - (* AThrow *)
+        intros e _ st d toks st' d' k Hd H. cbn [run_areq] in H. discriminate H.
       - (* ANil *)
         intros _ st d toks st' d' k Hd H. cbn [run_areqs] in H. injection H as <- <- <-. cbn [c_areqs]. auto.
       - (* ACons *)
@@ -826,6 +833,8 @@ Section ClientProofs.
         apply (IHl Hf2 st1 r1 t2 st' d' (fun t2 ast2 p2 => k (t1 ++ t2) ast2 p2) S1 H2).
       - (* VSkip *)
         intros _ q st d toks st' d' k Hs Hd H. cbn [run_vact] in H. injection H as <- <- <-. cbn [c_vact]. auto.
+      - (* VThrow *)
+        intros e _ q st d toks st' d' k Hs Hd H. cbn [run_vact] in H. discriminate H.
       - (* VGet *)
         intros t _ q st d toks st' d' k Hs Hd. apply (do_get_sim n q t st d toks st' d' k Hn Hs Hd).
       - (* VObj *)
@@ -881,6 +890,26 @@ Section ClientProofs.
       destruct (obj_child_sim n h (fun u : unit => u) tt tt tt data toks rest
         (fun toks p4 => SM.CRet (Some (toks, p4, false))) Hn (Hreqs h) Hf (SP.suffix_data data) HW) as [_ [E2 _]].
       unfold scope_client. rewrite E2. reflexivity.
+    Qed.
+    Lemma scope_client_arr_run n h toks rest : (length data < n)%nat -> frag_areqs h = true ->
+      run_arr_root narrow widen o data h = Done toks rest false ->
+      snd (SM.str_client_run narrow widen data o (scope_client_arr n h)) = Some (Some (toks, pos rest, false)).
+    Proof.
+      intros Hn Hf Hrun. unfold SM.str_client_run. change (snd (SM.str_client narrow widen data o (scope_client_arr n h) [] data)) with (SND (scope_client_arr n h) data).
+      destruct (programs_sim n Hn) as [_ [_ [_ [Hareqs _]]]].
+      assert (HW : match read_array_size o data with
+                   | ROk sz r2 => with_child (after_child_arr (fun u : unit => u) tt) (run_areqs narrow widen o h (mkA sz 0) r2)
+                   | RNot r2 => ([KNone], Go tt r2, false)
+                   | RErr e => ([], raise_typed e tt data, false)
+                   | RFuel => ([], NoFuel, false)
+                   end = (toks, Go tt rest, false)).
+      { unfold run_arr_root in Hrun. destruct (read_array_size o data) as [sz body|r|e|]; try discriminate.
+        - destruct (with_child (after_child_arr (fun u : unit => u) tt) (run_areqs narrow widen o h (mkA sz 0) body)) as [[t oc] fl].
+          destruct oc as [[] r|e u p| |]; cbn [finish_root] in Hrun; try discriminate. injection Hrun as -> -> ->. reflexivity.
+        - injection Hrun as <- <-. reflexivity. }
+      destruct (arr_child_sim n h (fun u : unit => u) tt tt tt data toks rest
+        (fun toks p4 => SM.CRet (Some (toks, p4, false))) Hn (Hareqs h) Hf (SP.suffix_data data) HW) as [_ [E2 _]].
+      unfold scope_client_arr. rewrite E2. reflexivity.
     Qed.
   End WithReader.
 
@@ -1146,5 +1175,11 @@ Section ClientProofs.
     change (OKS (scope_client n h) d). unfold scope_client.
     destruct (programs_oks n) as [_ [Hq _]].
     apply (oks_obj_child n h (fun toks p4 => SM.CRet (Some (toks, p4, false))) d (Hq h)). intros; reflexivity.
+  Qed.
+  Lemma scope_client_arr_seeks_ok n h d : SM.client_seeks_ok narrow widen data o (scope_client_arr n h) d = true.
+  Proof.
+    change (OKS (scope_client_arr n h) d). unfold scope_client_arr.
+    destruct (programs_oks n) as [_ [_ [_ [Hq _]]]].
+    apply (oks_arr_child n h (fun toks p4 => SM.CRet (Some (toks, p4, false))) d (Hq h)). intros; reflexivity.
   Qed.
 End ClientProofs.
